@@ -135,5 +135,24 @@ CLAIMED["C09"] = dict(
          "exercised as black boxes; origin HTTP responses are C17's subject. 'Loop without consuming input' is settled by structural "
          "recursion / explicit fuel lemmas in the models (C06 chunk_ok, C08 no_spin, C11 skipIpv6Ext).",
 )
+CLAIMED["C01"] = dict(
+    text="Unbounded Lean theorems about the gate and dispatch model: with an authenticator configured a request passes only with an "
+         "accepted Basic token or (no header and accepted SNI credentials); the registry accepts exactly base64(user:password) of listed "
+         "pairs (injective, via C13) and never an SNI source; every rejected request yields exactly 407 + Basic challenge and no egress; "
+         "every egress and every 200 (health check included) belongs to a passed request; each request of a session is decided on its "
+         "own. Tied to tunnel.rs / http_codec.rs / core.rs by ~1.5k real HTTP/1.1 and multiplexed HTTP/2 sessions per run over in-memory "
+         "transports with a scripted forwarder recording every outbound call.",
+    note="Trusted: Lean kernel, harness/door (forwarder injection hook in Core::make_forwarder), httparse/h2/http header handling, "
+         "HTTP/3 (same Tunnel code, codec not driven).",
+)
+CLAIMED["C10"] = dict(
+    text="Unbounded Lean theorems: every CONNECT gets exactly one final response; it is 200, 407+challenge or 502 with 300/301/302 or "
+         "310/311 + host name, per outcome of the connection attempt (tables regenerated from the match arms of http_downstream.rs on "
+         "every run, so a changed arm re-checks the theorems); reserved authorities are never connected to and other methods on them get "
+         "502; look-alike names are ordinary hosts; CONNECT without a port is refused 502/300 with no attempt; completion within the "
+         "establishment timeout gives 200, later gives 502/302. Tied to the code by the same real-session suite as C01.",
+    note="Trusted: Lean kernel, harness/door, tools/extract.py (regex translation of the two match tables), http crate authority parsing "
+         "(parsed view is a model input), HTTP/3 not driven.",
+)
 NOT_CLAIMED = {p: "not yet built in this framework (planned, see DESIGN.md section 5)" for p in
-               ["C01", "C07", "C10", "C16", "C17", "C18", "C19", "C20"]}
+               ["C07", "C16", "C17", "C18", "C19", "C20"]}
